@@ -630,7 +630,9 @@ func c20Release(r *core.Run) {
 			n++
 			r.Sites++
 			r.Fn(f)
-			key := core.ShortKey(f.Obj) + " releases the " + a.kind.what
+			// an unexported helper with a single calling function is part of that function: the obligation (and a
+			// recorded finding) stays with the same construct when a body is split into helpers or merged back
+			key := core.ShortKey(soleCallerRoot(w, f).Obj) + " releases the " + a.kind.what
 			if a.v == nil {
 				r.Bad("C20.release", key, w.Pos(a.call.Pos()), "the acquired "+a.kind.what+" is discarded (assigned to _): it can never be released")
 				continue
@@ -914,4 +916,71 @@ func initRoots(w *core.World) []*core.FuncInfo {
 		}
 	}
 	return out
+}
+
+// soleCallerRoot walks up from an unexported function to its only calling function (same package, static calls),
+// up to three levels; a function with several callers, an exported one, one started with `go`, or one whose address
+// is taken stays itself.
+func soleCallerRoot(w *core.World, f *core.FuncInfo) *core.FuncInfo {
+	for i := 0; i < 3; i++ {
+		if f.Obj.Exported() {
+			return f
+		}
+		var caller *core.FuncInfo
+		n := 0
+		for _, cs := range w.Callers(f.Obj) {
+			if w.IsTestFile(cs.Call.Pos()) || cs.Caller == nil {
+				continue
+			}
+			if cs.Caller == f {
+				continue
+			}
+			if cs.InGo {
+				return f // a goroutine's entry function is a construct of its own
+			}
+			if caller != cs.Caller {
+				caller = cs.Caller
+				n++
+			}
+		}
+		if n != 1 || caller.Pkg != f.Pkg || cs0HasValueUse(w, f) {
+			return f
+		}
+		f = caller
+	}
+	return f
+}
+
+// cs0HasValueUse: the function is used as a value somewhere (method value, passed as callback, go statement target
+// through a variable): its callers are then not all visible as static calls.
+func cs0HasValueUse(w *core.World, f *core.FuncInfo) bool {
+	used := false
+	for _, g := range w.SortedFuncs() {
+		if g.Pkg != f.Pkg || g.Decl.Body == nil {
+			continue
+		}
+		info := g.Pkg.TypesInfo
+		calls := map[*ast.Ident]bool{}
+		ast.Inspect(g.Decl.Body, func(n ast.Node) bool {
+			if c, ok := n.(*ast.CallExpr); ok {
+				switch fx := ast.Unparen(c.Fun).(type) {
+				case *ast.Ident:
+					calls[fx] = true
+				case *ast.SelectorExpr:
+					calls[fx.Sel] = true
+				}
+			}
+			return true
+		})
+		ast.Inspect(g.Decl.Body, func(n ast.Node) bool {
+			if id, ok := n.(*ast.Ident); ok && info.Uses[id] == types.Object(f.Obj) && !calls[id] {
+				used = true
+			}
+			return !used
+		})
+		if used {
+			return true
+		}
+	}
+	return false
 }
